@@ -1,5 +1,6 @@
 import KyupyVerif.Proofs.Sdf
 import KyupyVerif.Proofs.SdfText
+import KyupyVerif.Proofs.SdfTextRaw
 /-! # C14 — every SDF delay lands on the right line, polarity and data set — none is lost
 
 Object of the theorems: the hand-written model `KV.Sdf` (Model/Sdf.lean) of `kyupy/sdf.py` *after* lark:
@@ -18,8 +19,9 @@ given by two tables (`pinLine`, `icLine`).  All theorems quantify over ALL block
   it: contextual scanner with the per-state terminal order of the real `Lark` object, keywords as prefixes, `ID` /
   `ID_OR_EDGE` tried before the ignored terminals, `_NOB`, balanced TIMINGCHECK skip; then `SdfFile.ok` = what
   `SdfTransformer` raises on): `sdf_text_roundtrip` — `parseSdf (printSdf f) = some f` for every tree with valid name
-  tokens and number fields (`SdfFile.valid`); `sdf_text_roundtrip_tree` (grammar alone), `sdf_text_valid_ok`.
-  `SdfFile.toRaw` hands the tree to the block list the theorems above are about.
+  tokens and number fields (`SdfFile.valid`); `sdf_text_roundtrip_tree` (grammar alone), `sdf_text_valid_ok`;
+  `sdf_text_roundtrip_raw` — the same at the level of the block lists the theorems above are about (`SdfFile.toRaw` /
+  `ofRaw`: numbers in thousandths printed as `[-]i.fff`, `sdf_text_number_roundtrip`).
 * **Correspondence** (harness/c14.py, differential, not proof): (a) text level: the model reader (driver `sdfparse`) against the
   real lark grammar (parse tree, token texts verbatim) and the real `sdf.parse` (accept / raise) on every generated text, on
   hand-written corner cases and on mutated texts (one or two edits: character deleted / inserted / replaced, fragment
@@ -458,6 +460,18 @@ theorem sdf_text_roundtrip (f : SdfFile) (h : f.valid = true) : parseSdf (printS
 theorem sdf_text_roundtrip_tree (f : SdfFile) (h : f.valid = true) : parseTree (printSdfL f) = some f :=
   parseTree_print f h
 
+/-- Through the text and back at the level of the block lists that the landing theorems above are about: print a block
+list (IOPATH entries in blocks with an INSTANCE name, INTERCONNECT entries in blocks without; numbers in thousandths as
+`[-]i.fff`), read the text with the grammar model, hand the tree over (`SdfFile.toRaw`) — the same block list comes back.
+Hypotheses (decidable): value lists are `()` or have three fields (`rawShapeOK`), and the tree is printable
+(`SdfFile.valid`: name tokens of the grammar, one or two value lists per entry). -/
+theorem sdf_text_roundtrip_raw (B : List RawCell) (hs : rawShapeOK B = true) (hv : (ofRaw B).valid = true) :
+    (parseSdf (printSdf (ofRaw B))).bind SdfFile.toRaw = some B := raw_roundtrip B hs hv
+
+/-- thousandths print and read back exactly; the printed field is a number `float()` accepts -/
+theorem sdf_text_number_roundtrip (v : Int) : milli (showMilli v) = some v ∧ validField (showMilli v) = true :=
+  ⟨(showMilli_spec v).2, (showMilli_spec v).1⟩
+
 /-- a valid tree never makes the transformer raise -/
 theorem sdf_text_valid_ok (f : SdfFile) (h : f.valid = true) : f.ok = true := SdfFile.ok_of_valid f h
 
@@ -488,6 +502,12 @@ example : parseSdf "(DELAYFILE (CELL (INSTANCE u1) (DELAY (ABSOLUTE (IOPATH A ZN
 example : parseSdf "(DELAYFILE (CELL (INSTANCE u1) (DELAY (ABSOLUTE (IOPATH A ZN () () ())))))" = none
     ∧ (parseTree "(DELAYFILE (CELL (INSTANCE u1) (DELAY (ABSOLUTE (IOPATH A ZN () () ())))))".toList).isSome = true := by
   decide +kernel
+/-- the block list `exCells` of the non-vacuity section above satisfies the hypotheses of `sdf_text_roundtrip_raw` -/
+example : rawShapeOK exCells = true ∧ (ofRaw exCells).valid = true := by decide +kernel
+example : (parseSdf (printSdf (ofRaw exCells))).bind SdfFile.toRaw = some exCells :=
+  sdf_text_roundtrip_raw exCells (by decide +kernel) (by decide +kernel)
+example : showMilli (-1250) = "-1.250".toList ∧ showMilli 7 = "0.007".toList ∧ milli "12.5".toList = some 12500
+    ∧ milli "-.25".toList = some (-250) ∧ milli "1.0004".toList = none ∧ milli "3.".toList = some 3000 := by decide +kernel
 end text
 
 end KV.C14
